@@ -59,14 +59,11 @@ Flush == /\ Len(hist) = E + 1
          /\ PrintT(<<"BEHAVIOUR", ToJson([steps |-> hist])>>)
          /\ \E f \in BOOLEAN : msg' = MNew(f) /\ hist' = <<[o |-> Op("New", NoC, 0, "", FALSE, f)]>>
 \* parameters drawn with RandomElement so that a simulation step has 7 candidate successors, not ~250
-CallsSim == LET c == RandomElement(Cids)
-                p == RandomElement(Prios)
-                t == RandomElement(WTypes)
-                pt == RandomElement(PTypes)
-                s == RandomElement(BOOLEAN)
-                q == RandomElement(Pendings)
-                k == RandomElement(1..12)        \* Reset only occasionally
-            IN \/ AddEntry(c, p, t, s) /\ Rec(Op("AddEntry", c, p, t, s, FALSE))
+\* (bound by \E over singleton sets: a LET definition would be re-evaluated, i.e. re-drawn, at every use)
+CallsSim == \E c \in {RandomElement(Cids)}, p \in {RandomElement(Prios)}, t \in {RandomElement(WTypes)},
+               pt \in {RandomElement(PTypes)}, s \in {RandomElement(BOOLEAN)}, q \in {RandomElement(Pendings)},
+               k \in {RandomElement(1..12)} :            \* Reset only occasionally
+               \/ AddEntry(c, p, t, s) /\ Rec(Op("AddEntry", c, p, t, s, FALSE))
                \/ Cancel(c) /\ Rec(Op("Cancel", c, 0, "", FALSE, FALSE))
                \/ Remove(c) /\ Rec(Op("Remove", c, 0, "", FALSE, FALSE))
                \/ AddBlock(c) /\ Rec(Op("AddBlock", c, 0, "", FALSE, FALSE))
